@@ -72,7 +72,7 @@ func loadKnown(property string) []knownFinding {
 }
 
 func New(property, tier string, seed int64, level string) *Run {
-	return &Run{openFindings: loadKnown(property), reported: map[string]bool{},Property: property, Tier: tier, Seed: seed, Level: level, start: time.Now(),
+	return &Run{openFindings: loadKnown(property), reported: map[string]bool{}, Property: property, Tier: tier, Seed: seed, Level: level, start: time.Now(),
 		distinct: map[string]struct{}{}, counters: map[string]int{}, extra: map[string]any{}, maxSamples: 6}
 }
 
